@@ -35,6 +35,7 @@ type Obligation struct {
 	Model  string
 	Query  string
 	posv   token.Pos
+	vkey   vpos // flattened position (helpers translated in place stand where their call stands)
 	Vars   map[string]string // source-level name -> SMT term (for counterexample extraction)
 	Values map[string]string
 	Candidate bool // Values come from a weakened query (quantified assumptions dropped)
